@@ -111,10 +111,12 @@ ModeOf(c) == IF c \in G_PsdOnly THEN 1 ELSE 0
 Hash(ks) == LET RECURSIVE go(_, _) go(i, acc) == IF i > Len(ks) THEN acc ELSE go(i + 1, (acc * 17 + ks[i]) % 100003) IN go(1, 7)
 
 ReplayInit ==
-  /\ \E c \in 1..Len(Cls), bi \in 1..Len(RBatches), ch \in 0..(NChunks - 1) :
-       /\ (Cls[c] = "TransPerm" => RBatches[bi] = <<>>)
+  /\ \E c \in 1..Len(Cls), bi \in 1..(Len(RBatches) + 1), ch \in 0..(NChunks - 1) :
+       \* a batch of three only for the concatenation (pieces of unequal sizes along a batch dimension)
+       /\ (bi = Len(RBatches) + 1 => Cls[c] = "Cat")
+       /\ (Cls[c] = "TransPerm" => (RBatches \o << <<3>> >>)[bi] = <<>>)
        /\ ((c * 31 + bi * 7 + ch) % NParts = Part)
-       /\ desc = [cls |-> Cls[c], b |-> RBatches[bi], chunk |-> ch, n |-> 4,
+       /\ desc = [cls |-> Cls[c], b |-> (RBatches \o << <<3>> >>)[bi], chunk |-> ch, n |-> 4,
                   dt |-> IF Cls[c] \in {"Perm", "TransPerm"} \/ (c + ch) % 2 = 1 THEN "f32" ELSE "f64",
                   debug |-> (c + bi + ch) % 2, id |-> (c * 8 + bi) * 64 + ch,
                   seed |-> c * 13 + bi * 5 + ch]
